@@ -505,9 +505,8 @@ fn monitor(script: &Script, legacy: bool, keepalive: bool, log: &[WsEv], rlog: &
                 if closed || ended {
                     fail!("C25/output-after-close", "output {v} after the connection was closed");
                 }
-                if obl.contains(&Expect::End) {
-                    fail!("C25/wrong-response", "output {v} after connection_terminate");
-                }
+                // after a connection_terminate was consumed the server may still flush valid output
+                // (e.g. the echo of an earlier stop); it must not process further input and must end
                 let ty = v["type"].as_str().unwrap_or("");
                 match ty {
                     "connection_error" if legacy => {
